@@ -4,6 +4,7 @@ import (
 	"bytes"
 	"encoding/json"
 	"fmt"
+	"io"
 	"math/big"
 	"reflect"
 	"unsafe"
@@ -104,7 +105,9 @@ func deq(path string, a, b reflect.Value, depth int) string {
 		}
 	}
 	if t == rawMsgT {
-		// raw JSON is compared up to insignificant white space
+		// raw JSON is compared up to insignificant white space and the spelling
+		// of string escapes ("<" and "\u003c" are one string): token by token, so
+		// member order, repeated members and number literals still count
 		x, y := clean(a).Bytes(), clean(b).Bytes()
 		var cx, cy bytes.Buffer
 		if json.Compact(&cx, x) == nil && json.Compact(&cy, y) == nil {
@@ -117,7 +120,7 @@ func deq(path string, a, b reflect.Value, depth int) string {
 		if len(y) == 0 {
 			y = []byte("null")
 		}
-		if !bytes.Equal(x, y) {
+		if !bytes.Equal(x, y) && !sameJSONTokens(x, y) {
 			return fmt.Sprintf("%s: raw JSON %q vs %q", path, trunc(string(x)), trunc(string(y)))
 		}
 		return ""
@@ -388,4 +391,23 @@ func nodeDiff(path string, a, b mpt.Node, top bool) string {
 		}
 	}
 	return ""
+}
+
+// sameJSONTokens tells whether two JSON texts are the same sequence of tokens
+// (delimiters, member names and strings after unescaping, number literals as
+// written, true / false / null).
+func sameJSONTokens(x, y []byte) bool {
+	dx, dy := json.NewDecoder(bytes.NewReader(x)), json.NewDecoder(bytes.NewReader(y))
+	dx.UseNumber()
+	dy.UseNumber()
+	for {
+		tx, ex := dx.Token()
+		ty, ey := dy.Token()
+		if ex != nil || ey != nil {
+			return ex == io.EOF && ey == io.EOF
+		}
+		if tx != ty {
+			return false
+		}
+	}
 }
